@@ -497,7 +497,11 @@ func (p *stubProcessor) do(ctx context.Context, payload any) error {
 		return errStubConsume
 	}
 	if p.mutates {
-		tagTrail(p.next.sig, payload, p.tag)
+		// a component that declares MutatesData must be able to change what it is given
+		if pv := safeCall(func() { tagTrail(p.next.sig, payload, p.tag) }); pv != nil {
+			p.w.r.Failf("isolation", "mutating-component-got-read-only-data", "%s declares MutatesData but changing the payload it was handed panicked: %v", p.k(), pv)
+			return errStubConsume
+		}
 	}
 	return p.next.consume(ctx, payload)
 }
@@ -573,7 +577,9 @@ func (e *stubExporter) do(_ context.Context, payload any) error {
 	e.w.mu.Unlock()
 	if e.mutates {
 		// a mutating exporter really mutates what it was given: any sibling that shares the object will see the tag
-		tagTrail(e.sig, payload, "MUTATED-BY:"+e.key)
+		if pv := safeCall(func() { tagTrail(e.sig, payload, "MUTATED-BY:"+e.key) }); pv != nil {
+			e.w.r.Failf("isolation", "mutating-component-got-read-only-data", "%s declares MutatesData but changing the payload it was handed panicked: %v", e.key, pv)
+		}
 	}
 	if pl.FailConsume {
 		return errStubConsume
@@ -624,6 +630,84 @@ type stubConnector struct {
 	from, to string
 	next     anyConsumer
 	tag      string
+	routing  bool // type "rt": selects destinations through the router API
+}
+
+// route: the routing connector works on its own copy (it does not declare MutatesData), tags it, and sends it to the
+// groups of routeSelection one after the other. The first group gets the copy itself; a later group gets the same
+// object only if it has so far gone to non-mutating consumers only and one of their fan-outs has marked it read-only
+// (shared, immutable); a fresh copy otherwise.
+func (c *stubConnector) route(ctx context.Context, payload any) error {
+	p := pd{sig: c.from}
+	work := p.unmarshal(p.bytes(payload))
+	tagTrail(c.from, work, c.tag+"["+c.from+"->"+c.to+"]")
+	pristine := p.bytes(work)
+	var ids []pipeline.ID
+	var get func(...pipeline.ID) (anyConsumer, error)
+	switch c.to {
+	case sigLogs:
+		rt, ok := c.next.l.(connector.LogsRouterAndConsumer)
+		if !ok {
+			return c.next.consume(ctx, work)
+		}
+		ids = rt.PipelineIDs()
+		get = func(x ...pipeline.ID) (anyConsumer, error) {
+			n, err := rt.Consumer(x...)
+			return anyConsumer{sig: sigLogs, l: n}, err
+		}
+	case sigTraces:
+		rt, ok := c.next.t.(connector.TracesRouterAndConsumer)
+		if !ok {
+			return c.next.consume(ctx, work)
+		}
+		ids = rt.PipelineIDs()
+		get = func(x ...pipeline.ID) (anyConsumer, error) {
+			n, err := rt.Consumer(x...)
+			return anyConsumer{sig: sigTraces, t: n}, err
+		}
+	case sigProfiles:
+		rt, ok := c.next.p.(xconnector.ProfilesRouterAndConsumer)
+		if !ok {
+			return c.next.consume(ctx, work)
+		}
+		ids = rt.PipelineIDs()
+		get = func(x ...pipeline.ID) (anyConsumer, error) {
+			n, err := rt.Consumer(x...)
+			return anyConsumer{sig: sigProfiles, p: n}, err
+		}
+	default:
+		rt, ok := c.next.m.(connector.MetricsRouterAndConsumer)
+		if !ok {
+			return c.next.consume(ctx, work)
+		}
+		ids = rt.PipelineIDs()
+		get = func(x ...pipeline.ID) (anyConsumer, error) {
+			n, err := rt.Consumer(x...)
+			return anyConsumer{sig: sigMetrics, m: n}, err
+		}
+	}
+	sort.Slice(ids, func(i, j int) bool { return ids[i].String() < ids[j].String() })
+	var errs error
+	untouched := true // nobody entitled to change `work` has had it so far
+	for gi, grp := range routeSelection(rtMode, len(ids)) {
+		sel := make([]pipeline.ID, len(grp))
+		for i, k := range grp {
+			sel[i] = ids[k]
+		}
+		next, err := get(sel...)
+		if err != nil {
+			return fmt.Errorf("routing connector %s: %w", c.tag, err)
+		}
+		obj := work
+		if gi > 0 && !(untouched && p.isReadOnly(work)) {
+			obj = p.unmarshal(pristine)
+		}
+		if obj == work && next.caps().MutatesData {
+			untouched = false
+		}
+		errs = errors.Join(errs, next.consume(ctx, obj))
+	}
+	return errs
 }
 
 func (c *stubConnector) Capabilities() consumer.Capabilities {
@@ -638,6 +722,9 @@ func (c *stubConnector) do(ctx context.Context, payload any) error {
 	}
 	if pl.FailConsume {
 		return errStubConsume
+	}
+	if c.routing {
+		return c.route(ctx, payload)
 	}
 	// always build a new payload for the next pipeline (the connector does not mutate its input)
 	items := itemsOf(c.from, payload)
@@ -660,6 +747,42 @@ func (c *stubConnector) ConsumeProfiles(ctx context.Context, pf pprofile.Profile
 // rndMatrix is the support matrix of connector type "rnd" in the current run.
 var rndMatrix [4][4]bool
 
+// rtMode is how connector type "rt" selects destinations in the current run (see routeSelection).
+var rtMode int
+
+// routeSelection: the groups of pipelines (by position in the sorted list of n attached pipelines) the routing
+// connector sends to, one router.Consumer(...) call per group, in order.
+func routeSelection(mode, n int) [][]int {
+	all := make([]int, n)
+	for i := range all {
+		all[i] = i
+	}
+	switch {
+	case mode == 1:
+		return [][]int{{0}}
+	case mode == 2:
+		return [][]int{{0, 0}}
+	case mode == 3 && n >= 2:
+		return [][]int{all[1:]}
+	case mode == 4:
+		var out [][]int
+		for _, i := range all {
+			out = append(out, []int{i})
+		}
+		return out
+	case mode == 5 && n >= 2:
+		out := [][]int{{0, 1}}
+		for _, i := range all[2:] {
+			out = append(out, []int{i})
+		}
+		return out
+	case mode == 6 && n >= 3:
+		// the larger group last: singles first, then everything else together
+		return [][]int{{n - 1}, all[:n-1]}
+	}
+	return [][]int{all}
+}
+
 // connSupports says which (from,to) pairs a connector type implements.
 func connSupports(typ, from, to string) bool {
 	switch typ {
@@ -672,6 +795,9 @@ func connSupports(typ, from, to string) bool {
 		return true
 	case "l2m":
 		return from == sigLogs && to == sigMetrics
+	case "rt":
+		// the routing connector: same signal only, it picks the pipelines it sends to through the router API
+		return from == to
 	case "rnd":
 		// a support matrix drawn per run (set by genTopo before any factory is built)
 		idx := map[string]int{sigLogs: 0, sigTraces: 1, sigMetrics: 2, sigProfiles: 3}
@@ -689,7 +815,7 @@ func (w *World) connectorFactories() map[component.Type]connector.Factory {
 	mk := func(typ string) connector.Factory {
 		newC := func(set connector.Settings, from string, next anyConsumer) *stubConnector {
 			key := fmt.Sprintf("connector:%s:%s->%s", set.ID.String(), from, next.sig)
-			return &stubConnector{stubBase: w.newBase(key), from: from, to: next.sig, next: next, tag: set.ID.String()}
+			return &stubConnector{stubBase: w.newBase(key), from: from, to: next.sig, next: next, tag: set.ID.String(), routing: typ == "rt"}
 		}
 		var opts []xconnector.FactoryOption
 		st := component.StabilityLevelStable
@@ -783,6 +909,7 @@ func (w *World) connectorFactories() map[component.Type]connector.Factory {
 		component.MustNewType("l2m"):     mk("l2m"),
 		component.MustNewType("asym"):    mk("asym"),
 		component.MustNewType("rnd"):     mk("rnd"),
+		component.MustNewType("rt"):      mk("rt"),
 	}
 }
 
